@@ -254,6 +254,103 @@ def _warm_async():
             run_async(spec)
 
 
+# ------------------------------------------------------------------------- real processes (sampled)
+
+
+@st.composite
+def proc_spec(draw):
+    n = draw(st.integers(0, 30))
+    kind = draw(st.sampled_from(['all', 'break', 'close', 'fail', 'src_fail']))
+    return {
+        'n': n,
+        'c': draw(st.sampled_from([1, 2, 3])),
+        'kind': kind,
+        'at': draw(st.integers(0, n)),
+        'rexc': draw(st.booleans()),
+        'delays_ms': draw(st.lists(st.sampled_from([0, 0, 1, 5, 20]), min_size=1, max_size=4)),
+        'buffer': draw(st.sampled_from([0, 1, 2])),
+    }
+
+
+def run_proc(spec):
+    import threading
+
+    from vf.realproc import live_children, reap_children, run_with_watchdog
+
+    from . import targets
+
+    def case():
+        from mpservice.streamer import Stream
+
+        base_threads = set(threading.enumerate())
+        n, at = spec['n'], spec['at']
+
+        def source():
+            for i in range(n):
+                if spec['kind'] == 'src_fail' and i == at:
+                    raise sl.make_exc('CustomError', i, 'source')
+                yield i
+
+        fails = (at,) if spec['kind'] == 'fail' else ()
+        s = Stream(source())
+        if spec['buffer']:
+            s.buffer(spec['buffer'])
+        s.parmap(targets.proc_fn, executor='process', concurrency=spec['c'], return_exceptions=spec['rexc'], fails=fails, delays_ms=tuple(spec['delays_ms']))
+        it = iter(s)
+        outs, term = [], 'end'
+        try:
+            for y in it:
+                outs.append(sl.norm(y))
+                if spec['kind'] in ('break', 'close') and len(outs) >= at:
+                    term = 'stopped'
+                    break
+        except BaseException as e:
+            term = sl.norm(e)
+        it.close()
+        del it, s
+        import time
+
+        t0 = time.monotonic()
+        while (live_children() or [t for t in threading.enumerate() if t not in base_threads and t.is_alive() and t.name != 'case-runner' and not t.name.startswith('QueueFeederThread')]) and time.monotonic() - t0 < 3:
+            time.sleep(0.05)
+        left_p = live_children()
+        left_t = [t.name for t in threading.enumerate() if t not in base_threads and t.is_alive() and t.name != 'case-runner' and not t.name.startswith('QueueFeederThread')]
+        return outs, term, left_p, left_t
+
+    try:
+        outs, term, left_p, left_t = run_with_watchdog(case, budget_s=40, what='parmap(process) early stop / failure', signature=['hang', 'process_executor'])
+    finally:
+        reap_children()
+    # sequential meaning: the same consumer loop over a plain generator
+    def ref():
+        for i in range(spec['n']):
+            if spec['kind'] == 'src_fail' and i == spec['at']:
+                raise sl.make_exc('CustomError', i, 'source')
+            if spec['kind'] == 'fail' and i == spec['at']:
+                e = ValueError('proc_fn', i)
+                if not spec['rexc']:
+                    raise e
+                yield e
+            else:
+                yield ('r', i)
+
+    exp, eterm = [], 'end'
+    try:
+        for y in ref():
+            exp.append(sl.norm(y))
+            if spec['kind'] in ('break', 'close') and len(exp) >= spec['at']:
+                eterm = 'stopped'
+                break
+    except BaseException as e:
+        eterm = sl.norm(e)
+    if outs != exp or term != eterm:
+        raise Violation('transcript', f'consumer saw outs={outs} term={term}; sequential meaning gives outs={exp} term={eterm}', signature=['transcript', 'process'])
+    if left_p or left_t:
+        raise Violation('alive_after_close', f'after the iterator was closed: processes {left_p} threads {left_t}', signature=['alive_after_close', 'process'])
+    early = term == 'stopped' or isinstance(term, list)
+    return CaseInfo(nontrivial=early and spec['n'] > spec['at'] + 1, descriptor=spec, classes=('process_executor', spec['kind'], f"c{spec['c']}", f"buffer{spec['buffer']}"), sample=dict(spec, outs=outs[:5], term=term))
+
+
 RULE_F1 = (
     'generated sync pipelines (source n<=20 with optional failure incl. after-last, 1-3 stages from map/filter/buffer/parmap(thread)/'
     'parmap(coroutine) with value-keyed failures, preprocessor failures, sizes 1-4) x consumer (all/break/close/drop at k) x schedule '
@@ -288,4 +385,7 @@ FAMILIES = [
         'leak check after asyncio.run returned. Non-trivial as F1.',
         setup=_warm_async,
     ),
+    Family('F4_process_executor', 'real', proc_spec(), run_proc, quick=16, thorough=500, shards_quick=8, shards_thorough=12, shrink=False,
+           rule='Stream(generator).[buffer(m)].parmap(fn, executor="process", concurrency 1-3) with real worker processes: consume all / break / close at k / worker failure at k (return_exceptions on/off) / source failure at k; '
+           'oracle: transcript == sequential meaning; no worker process and no helper thread left after close (3 s grace for process exit); watchdog 3x rule. Non-trivial: early stop or failure with elements still ahead.'),
 ]
